@@ -33,10 +33,12 @@ CONSTANTS TraceFile, S      \* S = window + 1 = size of the sequence space
 Trace == ndJsonDeserialize(TraceFile)
 
 VARIABLES l, off,
+          cid,       \* <<client conn id, server conn id>> of the connection under
+                     \* observation (from the reset line) and whether it has started
           nextSeq,   \* [Dirs -> seq the next new packet will carry]
           sent,      \* [Dirs -> messages transmitted at least once]
           assigned   \* [Dirs -> [seq -> index of the message carrying it, 0 = ping]]
-tvars == <<vars, l, off, nextSeq, sent, assigned>>
+tvars == <<vars, l, off, cid, nextSeq, sent, assigned>>
 
 Ev == Trace[l]
 Is(e) == l <= Len(Trace) /\ Ev.ev = e
@@ -47,12 +49,13 @@ All(d) == got[d] \o inflight[d]
 FreshT == /\ nextSeq' = [d \in Dirs |-> 0] /\ sent' = [d \in Dirs |-> 0]
           /\ assigned' = [d \in Dirs |-> [q \in 0..(S - 1) |-> 0]]
 
-TraceInit == /\ Init /\ l = 1 /\ off = FALSE
+TraceInit == /\ Init /\ l = 1 /\ off = FALSE /\ cid = <<0, 0, FALSE>>
              /\ nextSeq = [d \in Dirs |-> 0] /\ sent = [d \in Dirs |-> 0]
              /\ assigned = [d \in Dirs |-> [q \in 0..(S - 1) |-> 0]]
 
-TReset ==
-    /\ Is("reset") /\ Adv /\ off' = FALSE /\ FreshT
+KeepT == UNCHANGED <<cid, nextSeq, sent, assigned>>
+
+FreshModel ==
     /\ up' = TRUE
     /\ writes' = [d \in Dirs |-> <<>>] /\ wpc' = [d \in Dirs |-> "idle"]
     /\ inflight' = [d \in Dirs |-> <<>>] /\ onRelay' = [d \in Dirs |-> <<>>]
@@ -62,28 +65,47 @@ TReset ==
     /\ plain' = [d \in Dirs |-> 0] /\ rd' = [d \in Dirs |-> 0]
     /\ seen' = {} /\ faults' = 0
 
-KeepT == UNCHANGED <<nextSeq, sent, assigned>>
+\* The reset line (written when the session is over) names the connection pair
+\* that was used: like gRPC the harness dials again when a connection dies
+\* during its handshake, and only the last attempt is modelled.
+TReset == /\ Is("reset") /\ Adv /\ off' = FALSE /\ FreshT /\ FreshModel
+          /\ cid' = <<Ev.cconn, Ev.sconn, FALSE>>
+
+HasConn == "conn" \in DOMAIN Ev
+Mine == HasConn /\ Ev.conn \in {cid[1], cid[2]}
+Started == cid[3]
+
+\* the observed connection starts with the first Dial / Accept return of the pair
+TStart == /\ ~off /\ ~Started /\ l <= Len(Trace) /\ Ev.ev \in {"dialRet", "acceptRet"} /\ Mine /\ Adv
+          /\ cid' = <<cid[1], cid[2], TRUE>>
+          /\ UNCHANGED <<vars, off, nextSeq, sent, assigned>>
+\* lines before that, and lines of other connections, are not judged
+TForeign == /\ ~off /\ l <= Len(Trace) /\ Ev.ev \notin {"reset", "end"} /\ Adv
+            /\ ~Started \/ (HasConn /\ ~Mine)
+            /\ ~(~Started /\ Ev.ev \in {"dialRet", "acceptRet"} /\ Mine)
+            /\ UNCHANGED <<vars, off>> /\ KeepT
+Cur == Started /\ (~HasConn \/ Mine)
 
 \* after the connection went down (or the harness shut the session down)
 \* nothing more is judged
-TOff == /\ (off \/ ~up) /\ l <= Len(Trace) /\ Ev.ev # "reset" /\ Ev.ev # "end" /\ Adv
+TOff == /\ (off \/ ~up) /\ Started /\ l <= Len(Trace) /\ Ev.ev # "reset" /\ Ev.ev # "end" /\ Adv
         /\ UNCHANGED <<vars, off>> /\ KeepT
-TShutdown == /\ up /\ ~off /\ Is("shutdown") /\ Adv /\ off' = TRUE /\ UNCHANGED vars /\ KeepT
+TShutdown == /\ up /\ ~off /\ Started /\ Is("shutdown") /\ Adv /\ off' = TRUE /\ UNCHANGED vars /\ KeepT
 
 Live == up /\ ~off
 
 Skipped == {"srvStatus", "closeRet", "harnessNote", "relayFault", "note", "expect", "tag",
             "acceptCall", "acceptRet", "dialCall", "dialRet", "hsRet", "faultsEnd"}
-TSkip == /\ Live /\ l <= Len(Trace) /\ Ev.ev \in Skipped /\ Adv
+TSkip == /\ Live /\ Cur /\ l <= Len(Trace) /\ Ev.ev \in Skipped /\ Adv
          /\ UNCHANGED <<vars, off>> /\ KeepT
 
-TWriteCall == /\ Live /\ Is("writeCall") /\ Adv
+TWriteCall == /\ Live /\ Is("writeCall") /\ Cur /\ Adv
               /\ rd[Ev.side] >= 0 /\ Ev.pos = Written(Ev.side)
               /\ WriteBegin(Ev.side, Ev.len)
               /\ UNCHANGED off /\ KeepT
 
 TKitWrite ==
-    /\ Live /\ Is("kitWrite") /\ Adv
+    /\ Live /\ Is("kitWrite") /\ Cur /\ Adv
     /\ LET d == Ev.side IN
        IF wpc[d] = "hdr" THEN Ev.len = HDR /\ SendHdr(d)
        ELSE IF wpc[d] = "body" THEN Ev.len = writes[d][Len(writes[d])] + MAC /\ SendBody(d)
@@ -91,13 +113,13 @@ TKitWrite ==
     /\ UNCHANGED off /\ KeepT
 
 \* a Write that failed: the connection is down
-TWriteRet == /\ Live /\ Is("writeRet") /\ Adv
+TWriteRet == /\ Live /\ Is("writeRet") /\ Cur /\ Adv
              /\ IF Ev.err = "" THEN wpc[Ev.side] = "idle" /\ UNCHANGED vars
                 ELSE up' = FALSE /\ UNCHANGED <<writes, wpc, inflight, onRelay, stream, got,
                         consumed, hdrSeen, plain, rd, seen, faults>>
              /\ UNCHANGED off /\ KeepT
 
-TDownEv == /\ Live /\ (Is("readErr") \/ Is("closeCall")) /\ Adv
+TDownEv == /\ Live /\ (Is("readErr") \/ Is("closeCall")) /\ Cur /\ Adv
            /\ up' = FALSE
            /\ UNCHANGED <<writes, wpc, inflight, onRelay, stream, got, consumed, hdrSeen, plain,
                           rd, seen, faults, off>> /\ KeepT
@@ -110,7 +132,7 @@ IdxOf(d) == IF Ev.seq = nextSeq[d] /\ sent[d] < Len(All(d)) THEN sent[d] + 1
 
 \* the relay saw a message: never anything it should not see
 TRelaySee ==
-    /\ Live /\ Is("relay") /\ Ev.op \in {"msg", "drop"} /\ Adv
+    /\ Live /\ Started /\ Is("relay") /\ Ev.op \in {"msg", "drop"} /\ Adv
     /\ Ev.plain = 0
     /\ LET d == DirOfSid(Ev.sid) IN
        IF Ev.kind = 2
@@ -132,11 +154,11 @@ TRelaySee ==
                     ELSE KeepT
        ELSE UNCHANGED seen /\ KeepT
     /\ UNCHANGED <<up, writes, wpc, inflight, onRelay, stream, got, consumed, hdrSeen, plain,
-                   rd, faults, off>>
+                   rd, faults, off, cid>>
 
 \* ... and queued it
 TRelayEnq ==
-    /\ Live /\ Is("relay") /\ Ev.op = "enq" /\ Adv
+    /\ Live /\ Started /\ Is("relay") /\ Ev.op = "enq" /\ Adv
     /\ LET d == DirOfSid(Ev.sid) IN
        IF IsData
        THEN LET i == assigned[d][Ev.seq] IN
@@ -146,7 +168,7 @@ TRelayEnq ==
     /\ UNCHANGED off /\ KeepT
 
 TRelayDeliver ==
-    /\ Live /\ Is("relay") /\ Ev.op = "deliver" /\ Adv
+    /\ Live /\ Started /\ Is("relay") /\ Ev.op = "deliver" /\ Adv
     /\ LET d == DirOfSid(Ev.sid) IN
        IF IsData
        THEN /\ onRelay[d] # <<>> /\ Head(onRelay[d]).len + 9 = Ev.len
@@ -155,13 +177,13 @@ TRelayDeliver ==
     /\ UNCHANGED off /\ KeepT
 
 TRelayOther ==
-    /\ Live /\ Is("relay") /\ Ev.op \notin {"msg", "drop", "enq", "deliver"} /\ Adv
+    /\ Live /\ Started /\ Is("relay") /\ Ev.op \notin {"msg", "drop", "enq", "deliver"} /\ Adv
     /\ UNCHANGED <<vars, off>> /\ KeepT
 
 \* Read returned: the reader opened what it needed (silent steps) and hands
 \* out the next bytes of the peer's stream
 TRead ==
-    /\ Live /\ Is("read") /\ Adv
+    /\ Live /\ Is("read") /\ Cur /\ Adv
     /\ LET d == Peer(Ev.side) IN
        /\ Ev.ok = 1 /\ Ev.pos = rd[d]
        /\ AppRead(d, Ev.buf)
@@ -174,11 +196,11 @@ TSilent == /\ Live /\ \E d \in Dirs : ReadHs(d) \/ ReadHdr(d) \/ ReadBody(d)
 \* the harness's verdict: complete iff the connection stayed up, and then
 \* everything written was read
 TEnd == /\ Is("end") /\ Adv
-        /\ (Ev.complete = 1) = up
+        /\ (Ev.complete = 1) = (up /\ Started)
         /\ up => \A d \in Dirs : rd[d] = Written(d)
         /\ off' = TRUE /\ UNCHANGED vars /\ KeepT
 
-TraceNext == TReset \/ TOff \/ TShutdown \/ TSkip \/ TWriteCall \/ TKitWrite \/ TWriteRet
+TraceNext == TReset \/ TStart \/ TForeign \/ TOff \/ TShutdown \/ TSkip \/ TWriteCall \/ TKitWrite \/ TWriteRet
              \/ TDownEv \/ TRelaySee \/ TRelayEnq \/ TRelayDeliver \/ TRelayOther \/ TRead
              \/ TSilent \/ TEnd
 TraceSpec == TraceInit /\ [][TraceNext]_tvars
